@@ -5,6 +5,7 @@ import HdVerif.Proofs.AffinePairs
 import HdVerif.Proofs.AffineRound
 import HdVerif.Proofs.AffineCalls
 import HdVerif.Proofs.AffineImage
+import HdVerif.Proofs.AffineExtra
 /-! # C10  Coordinate transforms are mutually consistent and invertible
 
 Property theorems only (helper lemmas live in `Proofs/Affine.lean`).  The statements are about the model
@@ -943,5 +944,69 @@ def exLocalizer : ImageDs :=
     perFrame := [{ measures := some ([1, 1], some 2), posPatient := some [0, 0, 0], oriPatient := some [1, 0, 0, 0, 1, 0] },
                  { measures := some ([1 / 2, 3], none), posPatient := some [5, 6, 7], oriPatient := some [0, 1, 0, 0, 0, 1] }] }
 example : getSpatialInformation exLocalizer (some 2) false = .ok ([5, 6, 7], [0, 1, 0, 0, 0, 1], [1 / 2, 3], none) := by decide +kernel
+
+
+/-! ## PATIENT vs SLIDE coordinate system (`get_image_coordinate_system`) -/
+
+/-- **SLIDE iff** the image has a frame of reference and one of the slide markers (`ImageOrientationSlide`,
+`ImageCenterPointCoordinatesSequence`; list regenerated, TC10g) - also when patient positions are present.  Tie C: `coordinate_system` stream. -/
+theorem coordinate_system_slide_iff (d : CoordInput) :
+    imageCoordinateSystem d = some .slide ↔
+      d.present.contains "FrameOfReferenceUID" = true ∧
+      (d.present.contains "ImageOrientationSlide" = true ∨ d.present.contains "ImageCenterPointCoordinatesSequence" = true) :=
+  imageCoordinateSystem_slide_iff d
+
+/-- **PATIENT iff** frame of reference, no slide marker, and an image position at the root or in the FIRST item of the shared / per-frame
+functional groups; everything else has no coordinate system (and therefore no transformers: `for_image_rules`) -/
+theorem coordinate_system_patient_iff (d : CoordInput) :
+    imageCoordinateSystem d = some .patient ↔
+      d.present.contains "FrameOfReferenceUID" = true ∧
+      d.present.contains "ImageOrientationSlide" = false ∧ d.present.contains "ImageCenterPointCoordinatesSequence" = false ∧
+      (d.present.contains "ImagePositionPatient" = true ∨
+        (d.present.contains "SharedFunctionalGroupsSequence" = true ∧ d.firstItemHasPatientPosition.contains "SharedFunctionalGroupsSequence" = true) ∨
+        (d.present.contains "PerFrameFunctionalGroupsSequence" = true ∧ d.firstItemHasPatientPosition.contains "PerFrameFunctionalGroupsSequence" = true)) :=
+  imageCoordinateSystem_patient_iff d
+
+example : imageCoordinateSystem ⟨["FrameOfReferenceUID", "ImageOrientationSlide", "ImagePositionPatient"], []⟩ = some .slide := by decide
+example : imageCoordinateSystem ⟨["FrameOfReferenceUID", "PerFrameFunctionalGroupsSequence"], ["PerFrameFunctionalGroupsSequence"]⟩ = some .patient := by
+  decide
+example : imageCoordinateSystem ⟨["ImagePositionPatient"], []⟩ = none := by decide
+
+
+/-! ## image-to-image inverse pairs; the regenerated tables are consistent -/
+
+/-- **I2I(B,A) ∘ I2I(A,B) = id** for valid planes in the same plane (image coordinates `(x, y)` go to in-plane image coordinates and
+come back) -/
+theorem img2img_mutually_inverse (P Q : Plane) (hP : P.Valid) (hQ : Q.Valid) (hn : P.nrm.dot P.nrm = 1) (h : SamePlane P Q) :
+    ∃ ab ba, imgToImgAffine P.posL P.oriL P.ps Q.posL Q.oriL Q.ps = .ok ab ∧
+      imgToImgAffine Q.posL Q.oriL Q.ps P.posL P.oriL P.ps = .ok ba ∧
+      ∀ x y : Rat, ∃ x' y', ab.apply ⟨x, y, 0⟩ = ⟨x', y', 0⟩ ∧ ba.apply ⟨x', y', 0⟩ = ⟨x, y, 0⟩ :=
+  imgToImg_roundtrip P Q hP hQ hn h
+
+/-- **the six regenerated call specs are consistent** with a 4×4 affine acting on homogeneous columns: argument width + stacked
+constant rows = 4 with a final row of ones, at most three rows returned, the tested column is the one that is cut and the threshold is
+half a slice, integer dtype demanded exactly by the two classes that take pixel indices -/
+theorem call_specs_consistent :
+    ∀ s ∈ [Gen.pixToRefCallSpec, Gen.refToPixCallSpec, Gen.pixToPixCallSpec, Gen.imgToRefCallSpec, Gen.refToImgCallSpec,
+            Gen.imgToImgCallSpec],
+      CallSpec.width s + (CallSpec.pad s).length = 4 ∧ (CallSpec.pad s).getLast? = some 1 ∧ CallSpec.keep s ≤ 3 ∧
+      (∀ col thr k, CallSpec.drop s = some (col, thr, k) → col < CallSpec.keep s ∧ k = col ∧ thr = 1 / 2) ∧
+      (CallSpec.intOnly s = true ↔ (s = Gen.pixToRefCallSpec ∨ s = Gen.pixToPixCallSpec)) :=
+  callSpecs_consistent
+
+/-- **the regenerated tables behind `for_image` are consistent**: every functional group is looked up in the shared groups first and in
+the frame's own item second, the total pixel matrix reads shared groups only, TILED_FULL has no per-frame groups, all four `for_image`
+constructors pass the same position / orientation / pixel spacing (the inverse ones also the slice spacing, default 1 = the default
+spacing of focal planes), the z origin defaults agree, frames are numbered channel → focal plane → tile -/
+theorem spatial_tables_consistent :
+    (∀ e ∈ Gen.spatialLookups, e.2 = ['s', 'f']) ∧ Gen.spatialLookups.map (·.1) =
+      ["PixelMeasuresSequence", "PlaneOrientationSequence", "PlanePositionSequence", "PlanePositionSlideSequence"] ∧
+    Gen.totalMatrixMeasuresLookup = ['s'] ∧ Gen.tiledFullHasNoFrameGroups = true ∧
+    (∀ (a b c : List Rat) (d : Option Rat), Gen.pixToRefForImage a b c d = (a, b, c, none) ∧ Gen.imgToRefForImage a b c d = (a, b, c, none)) ∧
+    (∀ (a b c : List Rat) (d : Rat), Gen.refToPixForImage a b c d = (a, b, c, some d) ∧ Gen.refToImgForImage a b c d = (a, b, c, some d)) ∧
+    Gen.refToPixForImageDefaultSliceSpacing = 1 ∧ Gen.refToImgForImageDefaultSliceSpacing = 1 ∧
+    Gen.iterDefaultSliceSpacing = 1 ∧ Gen.iterDefaultZ = Gen.totalMatrixDefaultZ ∧ Gen.iterDefaultFocalPlanes = 1 ∧
+    Gen.iterLoopNest = ["channel", "slice_index", "tile"] :=
+  spatialTables_consistent
 
 end HdVerif.C10
